@@ -313,7 +313,12 @@ impl<'tcx> Dumper<'tcx> {
             }
         } else if let ty::Ref(_, inner, _) = ty.kind() {
             if inner.is_str() || matches!(inner.kind(), ty::Slice(t) if *t == tcx.types.u8) {
-                if let Const::Val(cv, _) = c.const_ {
+                // literals in expressions are Const::Val; literals coming from match patterns are type-level constants (valtrees)
+                let cvo = match c.const_ {
+                    Const::Val(cv, _) => Some(cv),
+                    _ => c.const_.eval(tcx, tenv, rustc_span::DUMMY_SP).ok(),
+                };
+                if let Some(cv) = cvo {
                     if let Some(bytes) = cv.try_get_slice_bytes_for_diagnostics(tcx) {
                         items.push(("s", js(&String::from_utf8_lossy(bytes))));
                     }
